@@ -2,6 +2,6 @@
 # tools/seedrun.sh <ID> [other check IDs…]: run the registered check(s) against the scratch worktree holding the seeded change
 ID=$1; shift
 for c in $ID "$@"; do
-  echo "---- ./check $c (VERIF_REPO=/tmp/seed/$ID/repo)"
-  VERIF_REPO=/tmp/seed/$ID/repo ./check $c 2>&1 | grep -v "^KNOWN-FINDING" | tail -${TAILN:-8} | cut -c1-600
+  echo "---- ./check $c (${SEEDROOT:-/tmp/seed}/$ID)"
+  VERIF_REPO=${SEEDROOT:-/tmp/seed}/$ID/repo ./check $c 2>&1 | grep -v "^KNOWN-FINDING" | tail -${TAILN:-8} | cut -c1-600
 done
